@@ -539,6 +539,19 @@ func genPar(t *rapid.T) ParCase {
 	return ParCase{G: rapid.SampledFrom([]int{2, 4, 8}).Draw(t, "g"), Per: rapid.IntRange(30, 120).Draw(t, "per"), N: gen.Uniform(t, 60, 100, "n"), Seed: rapid.Uint64().Draw(t, "seed")}
 }
 
+func genLongOdd(t *rapid.T) Case {
+	var c Case
+	c.N, c.Clauses = gen.LongOddClauses(t)
+	c.Family = "long-odd-clauses"
+	c.Entry, c.Cert, c.NbMax = genConfig(t, c.N)
+	return c
+}
+
+func init() {
+	vf.Register(vf.Sub[Case]{Name: "long-odd-clauses", Quick: 1500, Thorough: 20000, Gen: genLongOdd, Check: check, Floor: 0.3,
+		Rule: "34..50 variables, 2..4 clauses of 33..n+6 literals drawn with replacement (repeated literals, tautologies) next to 5..25 clauses of 1..3 literals, the three entry points; DPLL oracle, models evaluated; non-trivial as above"})
+}
+
 func init() {
 	vf.Register(vf.Sub[Case]{Name: "ladders", Quick: 12, Thorough: 60, Gen: genLadder, Check: check, Floor: 0.5,
 		Rule: "ladder formulas (gen.Ladder: a clause over 40..640 or 10 001..12 500 variables split on a helper, followed by an implication chain or a gadget; or two clauses over all of a set Y tied to a master variable) whose first conflicts collect that many literals; verdict known by construction (the other oracles do not reach these sizes), models evaluated; non-trivial as above"})
